@@ -33,6 +33,15 @@ package langserver
 //@ func (*LspServer).TextDocumentHover
 //@   props C01
 //@ end
+// C13: the documentation (the declaration's comment) reaches the answer by CONCATENATION - only the label and the
+// separator line go through a format string (two fmt.Sprintf sites, both with constant formats); a third formatting
+// call would interpret the '%' of a comment as a verb
+//@ func (*LspServer).TextDocumentHover
+//@   props C13
+//@   ensures[only-label-and-separator-are-formatted] hits("Sprintf#2") == 0 && hits("Sprintf#0") <= 1 && hits("Sprintf#1") <= 1
+//@   at call Sprintf#0 before assert[label-goes-through-a-constant-format] len(arg0) == 12
+//@   at call Sprintf#1 before assert[separator-goes-through-a-constant-format] len(arg0) == 6
+//@ end
 
 //@ func (*LspServer).getHoverStr
 //@   props C01
